@@ -134,7 +134,9 @@ class Tokenizer:
         indent = 0
         lines = {}
         start = end = self._tokens[-1].end
-        for idx, tok in enumerate(self._tokengen):
+        header: list[TokenInfo] | None = []  # blanks and a comment between the colon and the end of the header line
+        block = False  # the header line ended right after the colon: an indented block follows
+        for tok in self._tokengen:
             if tok.type == Token.ENDMARKER:
                 # end of input inside the block: hand the marker back instead of swallowing it
                 if not lines:
@@ -142,12 +144,25 @@ class Tokenizer:
                 self._stack.append(tok)
                 self._with_macro = False
                 break
-            if (idx == 0) and tok.type == Token.NEWLINE:
-                continue
-            elif tok.type == Token.INDENT:
-                if (not is_indented) and (idx == 1):
+            if header is not None:
+                if tok.type in {Token.WS, Token.COMMENT}:
+                    header.append(tok)
+                    continue
+                if tok.type == Token.NEWLINE:
+                    header, block = None, True
+                    continue
+                if header:  # one-line form: the text starts right after the colon
+                    lines[header[0].start[0]] = header[0].line[header[0].start[1] :]
+                header = None
+            elif block and not is_indented:
+                if tok.type == Token.INDENT:
                     is_indented = True
                     continue
+                if tok.type in {Token.COMMENT, Token.NL, Token.WS}:
+                    lines.setdefault(tok.start[0], tok.line)  # comment and blank lines before the first statement of the block
+                    continue
+                raise self.syntax_error("expected an indented block after 'with' statement", tok)
+            if tok.type == Token.INDENT:
                 indent += 1
             elif tok.type == Token.DEDENT:
                 if indent:
